@@ -504,7 +504,7 @@ META = {
                   'every dependency DAG with up to 4 objects and every root list - nodes = reachable objects, one edge per '
                   'dependency, every object\'s obj_dependencies (the wait list) = its dependencies; Obj.dependencies (real '
                   'source) on 27 combinations of own USEs, included headers and header content. Level other, not proof: '
-                  'the trusted contracts above carry part of the property.',
+                  'the trusted contracts above carry part of the property. The closure variable `self` of _build_objs is an arbitrary Lib whose object list need not cover the dependency graph (objects resolved through the builder\'s source directories).',
     'trusted_base': ['pyvc engine', 'networkx.topological_sort (external)', 'concurrent.futures Future.result (external)',
                      'contract of Obj.build', 'contract of Builder.get_dependency_graph'],
     'assumptions': ['tasks of an earlier build of the same Obj instances have completed',
